@@ -22,7 +22,10 @@ def main():
     for key, rec in sorted(TABLE.items()):
         ID, n = key.split('-')
         src = '/tmp/seed-%s-out' % ID
-        if int(n) >= 7:  # fourth round: seeded/<ID>-7 and -8 come from /tmp/seed4-<ID>-out/{patch,demo,notes}{1,2}
+        if int(n) >= 9:  # fifth round (all twenty properties): seeded/<ID>-9 and -10 come from /tmp/seed6-<ID>-out/{patch,demo,notes}{1,2}
+            src = '/tmp/seed6-%s-out' % ID
+            n = str(int(n) - 8)
+        elif int(n) >= 7:  # fourth round: seeded/<ID>-7 and -8 come from /tmp/seed4-<ID>-out/{patch,demo,notes}{1,2}
             src = '/tmp/seed4-%s-out' % ID  # C02 C04 C05 C11 C14 C15 C17 C18 C19 C20
             if not os.path.isdir(src):
                 src = '/tmp/seed5-%s-out' % ID  # the other ten properties (same round, launched later)
